@@ -145,3 +145,130 @@ def rule_canonical_index_keys(ctx, rep, rid: str, floor: int = 4) -> None:
                 rep.bad(rid, key, f"{f.qual} turns the property key `{k}` into an element index with int() and never compares the spelling: \"01\", \"+1\", \" 1 \", \"1_0\" and digits of other scripts all address element 1 here, while the sites that do compare treat them as property names (a value stored under \"01\" cannot be read back)", f"{f.module.rel}:{c.lineno}")
     if not helpers and n == 0:
         raise AnalysisError("no key-to-index conversion found")
+
+
+# ---- negative positions: Python counts them from the end ------------------------------------------------
+_POSITION_METHODS = {"find": 1, "rfind": 1, "index": 1, "rindex": 1, "startswith": 1, "endswith": 1, "count": 1}
+
+
+def _raw_integer_helpers(f: Func) -> Set[str]:
+    """Names of sibling/enclosing local helper functions that return a script integer as it is
+    (`return to_integer(args[i], default) if len(args) > i else default`), i.e. possibly negative."""
+    out: Set[str] = set()
+    g = f.parent
+    while g is not None:
+        for name, h in g.children.items():
+            if isinstance(h.node, ast.Lambda):
+                continue
+            rets = [r.value for r in h.own_nodes() if isinstance(r, ast.Return) and r.value is not None]
+            if len(rets) != 1:
+                continue
+            v = rets[0]
+            arms = [v.body, v.orelse] if isinstance(v, ast.IfExp) else [v]
+            if any(isinstance(a, ast.Call) and call_name(a) == "to_integer" for a in arms):
+                out.add(name)
+        g = g.parent
+    return out
+
+
+def rule_negative_positions(ctx, rep, rid: str, modules: Tuple[str, ...] = ("vm", "context", "values"), floor: int = 10, only=None) -> None:
+    """A script integer (the result of to_integer) that is used as a Python slice bound, as the start/end position
+    of str.find/startswith/..., or as a subscript has to be made non-negative first: Python reads -1 as "one from
+    the end", ECMAScript clamps positions to 0 (or has its own rule for negative arguments)."""
+    rep.rule(rid, "an integer taken from a script argument is not used as a host slice bound, search position or subscript while it can still be negative (Python would count it from the end): it is clamped with max(0, ..), re-based under `if i < 0`, or range-tested first", floor=floor)
+    n_uses = 0
+    for f in ctx.tree.funcs:
+        if isinstance(f.node, ast.Lambda) or f.module.name not in modules or (only is not None and not only(f.qual)):
+            continue
+        ints: Dict[str, int] = {}
+        raw_helpers = _raw_integer_helpers(f)
+        for n in f.own_nodes():
+            if isinstance(n, ast.Assign) and len(n.targets) == 1 and isinstance(n.targets[0], ast.Name):
+                arms = [n.value.body, n.value.orelse] if isinstance(n.value, ast.IfExp) else [n.value]
+                if any(isinstance(a, ast.Call) and (call_name(a) == "to_integer" or (isinstance(a.func, ast.Name) and a.func.id in raw_helpers)) for a in arms):
+                    ints.setdefault(n.targets[0].id, n.lineno)
+        if not ints:
+            continue
+        # sanitising statements per local: (line, kind)
+        san: Dict[str, List[int]] = {k: [] for k in ints}
+        for n in f.own_nodes():
+            if isinstance(n, ast.Assign) and len(n.targets) == 1 and isinstance(n.targets[0], ast.Name) and n.targets[0].id in ints:
+                v = norm(n.value).replace(" ", "")
+                if v.startswith("max(0,") or v.startswith("min(max(") or ",0)" in v and v.startswith("max("):
+                    san[n.targets[0].id].append(n.lineno)
+            if isinstance(n, ast.If):
+                t = norm(n.test).replace(" ", "")
+                for k in ints:
+                    if t in (f"{k}<0", f"0>{k}") and (any(isinstance(b, ast.Assign) and any(isinstance(tg, ast.Name) and tg.id == k for tg in b.targets) for b in n.body) or (n.body and isinstance(n.body[-1], (ast.Return, ast.Raise, ast.Continue, ast.Break)))):
+                        san[k].append(n.lineno)
+                    # `if k < 0 or ...: raise/return`
+                    if f"{k}<0" in t and n.body and isinstance(n.body[-1], (ast.Return, ast.Raise, ast.Continue, ast.Break)) and " and " not in norm(n.test):
+                        san[k].append(n.lineno)
+
+        def guarded(use: ast.AST, k: str) -> bool:
+            for t, pol in guards_of(use, f.node):
+                tt = norm(t).replace(" ", "")
+                if pol and (f"0<={k}" in tt or f"{k}>=0" in tt or f"{k}>0" in tt or f"0<{k}" in tt):
+                    return True
+                if not pol and tt in (f"{k}<0", f"0>{k}"):
+                    return True
+            return False
+
+        for n in f.own_nodes():
+            uses: List[Tuple[ast.AST, str, str]] = []
+            if isinstance(n, ast.Subscript) and isinstance(n.slice, ast.Slice):
+                for part, what in ((n.slice.lower, "slice start"), (n.slice.upper, "slice end")):
+                    if part is not None:
+                        for x in ast.walk(part):
+                            if isinstance(x, ast.Name) and x.id in ints:
+                                uses.append((n, x.id, what))
+            elif isinstance(n, ast.Subscript) and isinstance(n.slice, ast.Name) and n.slice.id in ints:
+                uses.append((n, n.slice.id, "subscript"))
+            elif isinstance(n, ast.Call) and isinstance(n.func, ast.Attribute) and n.func.attr in _POSITION_METHODS:
+                for a in n.args[_POSITION_METHODS[n.func.attr]:]:
+                    for x in ast.walk(a):
+                        if isinstance(x, ast.Name) and x.id in ints:
+                            uses.append((n, x.id, f"position argument of .{n.func.attr}()"))
+            for use, k, what in uses:
+                if use.lineno <= ints[k]:
+                    continue
+                n_uses += 1
+                key = f"{f.qual}:{k}:{what}:{short(use, 30)}"
+                if any(ints[k] < ln <= use.lineno for ln in san[k]) or guarded(use, k):
+                    rep.ok(rid, key)
+                else:
+                    rep.bad(rid, key, f"{f.qual} uses the script integer `{k}` (to_integer, line {ints[k]}) as a {what} in `{short(use, 50)}` while it can be negative: Python counts a negative position from the end (\"abc\".startsWith(\"c\", -1) is then true), ECMAScript clamps it to 0", f"{f.module.rel}:{use.lineno}")
+    rep.analysed["script_integer_positions"] = n_uses
+
+
+# ---- sibling natives that the specification defines by the same steps ----------------------------------
+SIBLING_INDEX_READERS = [("charAt", "charCodeAt")]  # both: pos = ToIntegerOrInfinity(arg); outside [0, size) -> "" / NaN
+
+
+def rule_sibling_index_readers(ctx, rep, rid: str) -> None:
+    """charAt and charCodeAt differ only in what they return: the index conversion and the range test are the same
+    steps of the specification.  A divergence (one clamps, the other tests; one-sided against two-sided range test)
+    means one of them is wrong."""
+    rep.rule(rid, "sibling string natives that share their argument steps (charAt / charCodeAt) guard the element read with the same range test on the converted index", floor=1)
+    by_name = {f.name: f for f in ctx.tree.funcs if f.parent is not None and f.parent.name == "_make_string_method"}
+    for a, b in SIBLING_INDEX_READERS:
+        fa, fb = by_name.get(a), by_name.get(b)
+        if fa is None or fb is None:
+            raise AnalysisError(f"string natives {a}/{b} not found")
+
+        def shape(f: Func) -> Tuple[str, str]:
+            sub = next((n for n in f.own_nodes() if isinstance(n, ast.Subscript) and isinstance(n.ctx, ast.Load) and isinstance(n.slice, ast.Name) and isinstance(n.value, ast.Name) and n.value.id == "s"), None)
+            if sub is None:
+                return ("?", "?")
+            idx = sub.slice.id
+            conv = next((norm(n.value) for n in f.own_nodes() if isinstance(n, ast.Assign) and any(isinstance(t, ast.Name) and t.id == idx for t in n.targets)), "?")
+            guard = " and ".join(sorted(norm(t).replace(idx, "$i") for t, pol in guards_of(sub, f.node) if pol))
+            return (conv, guard)
+
+        sa_, sb_ = shape(fa), shape(fb)
+        key = f"{a}/{b}:index-steps"
+        if sa_[1] == sb_[1] and "?" not in sa_ and "?" not in sb_:
+            # the same range test around the element read; a differently spelled conversion alone is not a disagreement
+            rep.ok(rid, key, {"conversion": [sa_[0], sb_[0]], "guard": sa_[1]})
+        else:
+            rep.bad(rid, key, f"{a} converts its index with `{sa_[0]}` under `{sa_[1]}` but {b} with `{sb_[0]}` under `{sb_[1]}`: the specification gives both the same steps (ToIntegerOrInfinity, then a two-sided range test), so for some argument (a negative one, say) one of them answers for the wrong position", fb.loc)
